@@ -282,8 +282,9 @@ Print Assumptions C13_allclose_correct_small_shapes.
     [next] for the physical axes of both, both patterns of the same types [pss] dimension by
     dimension ([tys], Proofs/Axis_typed.v), all primes good ([gprimes]: atoms >= 2, sum types >= 2).
     Sharing of physical axes between the operands is allowed ([equal] freshens [other] then).
-    The theorems say "whenever the model answers [Ok b]": the only other outcome on typed pairs is
-    [Fail OutOfFuel], the fuel being an artefact of the model (C06_unify_fuel_monotone). *)
+    The [_correct_typed] theorems say "whenever the model answers [Ok b]"; that the model always
+    answers on typed pairs is C13_equal_total_typed / C13_allclose_total_typed below (the fuel formula
+    of the model of [unify] suffices: C06_unify_complete_model_fuel). *)
 
 (** for operands over disjoint physical axes, the two views built with [stride] from the unifier
     enumerate exactly the coincidences of the two patterns, each once *)
@@ -335,32 +336,47 @@ Theorem C13_equal_reflexive_typed : forall G next pss (t : pt) b, nan_free t ->
 Proof. exact equal_reflexive_typed. Qed.
 Print Assumptions C13_equal_reflexive_typed.
 
-(** the model does not fail on typed pairs -- [stride] / [fv] terminate within their fuel, every key
-    of the accumulated stride dict is a free axis (no KeyError in [project]), the free axes of the
-    second view are [subaxes] (the [__debug__] ValueError of [project] cannot fire) -- when the fuel
-    it gives to [unify] is at least the type-derived bound.
-    Full statement (open, notes/UNIFY.md): the same without the hypothesis on [unify_fuel]. *)
-Theorem C13_model_total_typed_partial : forall (V : Type) (t u : ptensor V), wf V t -> wf V u ->
+(** the model does not fail on typed pairs: [unify] answers with the fuel the model gives it
+    (C06_unify_complete_model_fuel: no side condition any more, notes/UNIFY.md section 6), [stride] /
+    [fv] terminate within their fuel, every key of the accumulated stride dict is a free axis (no
+    KeyError in [project]), the free axes of the second view are [subaxes] (the [__debug__]
+    ValueError of [project] cannot fire) *)
+Theorem C13_model_total_typed : forall (V : Type) (t u : ptensor V), wf V t -> wf V u ->
   forall G next pss, ctx_good G -> ctx_below G next -> tys G (vaxes t) pss -> tys G (vaxes u) pss -> Forall gprimes pss ->
-  Forall (fun ps => tyfuel ps <= unify_fuel (vaxes t) (vaxes u)) pss ->
   exists ov, overlap_model V next t u = Ok ov.
 Proof. exact overlap_model_total. Qed.
-Print Assumptions C13_model_total_typed_partial.
+Print Assumptions C13_model_total_typed.
 
 (** hence the executable premise of C13_equal_correct / C13_allclose_correct holds on every typed pair *)
-Theorem C13_compare_pre_typed_partial : forall G next pss (t u : pt),
+Theorem C13_compare_pre_typed : forall G next pss (t u : pt),
   typed_pair xval G next pss t u -> wf_b t = true -> wf_b u = true ->
-  Forall (fun ps => tyfuel ps <= unify_fuel (vaxes t) (vaxes u)) pss ->
   compare_pre_b next t u = true.
 Proof. exact compare_pre_typed. Qed.
-Print Assumptions C13_compare_pre_typed_partial.
+Print Assumptions C13_compare_pre_typed.
 
-Theorem C13_compare_decides_typed_partial : forall cmp G next pss (t u : pt),
-  typed_pair xval G next pss t u -> wf_b t = true -> wf_b u = true ->
-  Forall (fun ps => tyfuel ps <= unify_fuel (vaxes t) (vaxes u)) pss ->
+(** PREMISE-FREE, TOTAL: on every typed pair the model of [equal] / [allclose] answers, and the
+    answer is the truth about the two denoted dense tensors *)
+Theorem C13_equal_total_typed : forall G next pss (t u : pt),
+  typed_pair xval G next pss t u ->
+  exists b, equal_model next t u = Ok b /\
+    (b = true <-> shape xval t = shape xval u /\
+                  forall idx, in_bounds (shape xval t) idx -> denote xval t idx = denote xval u idx /\ denote xval t idx <> XNaN).
+Proof. exact equal_total_typed. Qed.
+Print Assumptions C13_equal_total_typed.
+
+Theorem C13_allclose_total_typed : forall rtol atol en G next pss (t u : pt),
+  typed_pair xval G next pss t u ->
+  exists b, allclose_model rtol atol en next t u = Ok b /\
+    (b = true <-> shape xval t = shape xval u /\
+                  forall idx, in_bounds (shape xval t) idx -> xisclose rtol atol en (denote xval t idx) (denote xval u idx) = true).
+Proof. exact allclose_total_typed. Qed.
+Print Assumptions C13_allclose_total_typed.
+
+Theorem C13_compare_total_typed : forall cmp G next pss (t u : pt),
+  typed_pair xval G next pss t u ->
   exists b, compare_model xval cmp next t u = Ok b /\ (b = true <-> cellwise cmp t u).
-Proof. exact compare_decides_typed. Qed.
-Print Assumptions C13_compare_decides_typed_partial.
+Proof. exact compare_total_typed. Qed.
+Print Assumptions C13_compare_total_typed.
 
 (** the hypothesis is decidable given the context (executable, sound) *)
 Theorem C13_typed_pair_checker_sound : forall cl next pss (t u : pt),
